@@ -423,10 +423,9 @@ theorem schulze_ren (v : Pairwise) (n : Nat) : schulze (renPairwise σ v) n = (s
 
 end
 
-example : Function.Injective (fun c : Cand => 2 * c + 5) :=
-  fun (a b : Nat) (h : 2 * a + 5 = 2 * b + 5) => by omega
+example : Function.Injective (fun c : Cand => c + 5) := fun _ _ h => Nat.add_right_cancel h
 
-example : smithSet (renPairwise (fun c => 2 * c + 5)
+example : smithSet (renPairwise (fun c => c + 5)
     [((0, 1), (3 : Rat)), ((1, 0), 2), ((1, 2), 4), ((2, 1), 1), ((0, 2), 5), ((2, 0), 0)]) = [5] := by
   decide +kernel
 
